@@ -306,6 +306,8 @@ class UnaryUfunc(Ufunc, ABC):
         """
         self.variables: Tuple["Tensor"] = (x1,)
         if where is not True:
+            # any array-like mask (list, tensor, ...) is accepted
+            where = np.asarray(where)
             self.where = where
         return self.numpy_ufunc(x1.data, out=out, where=where, dtype=dtype)
 
@@ -374,6 +376,8 @@ class BinaryUfunc(Ufunc, ABC):
         """
         self.variables: Tuple["Tensor", "Tensor"] = (x1, x2)
         if where is not True and where is not _NoValue:
+            # any array-like mask (list, tensor, ...) is accepted
+            where = np.asarray(where)
             self.where = where
             return self.numpy_ufunc(x1.data, x2.data, out=out, where=where, dtype=dtype)
         else:
